@@ -338,6 +338,31 @@ pub fn udp_packet_aes(cipher: &str, keys: &[Vec<u8>], b: &UdpBody) -> Vec<u8> {
     out
 }
 
+/// A client packet whose identity headers name the key chain `keys` while the body is sealed under the session
+/// sub-key of `body_psk` (what a registered user who claims to be another registered user would send).
+pub fn udp_packet_aes_mismatched(cipher: &str, keys: &[Vec<u8>], body_psk: &[u8], b: &UdpBody) -> Vec<u8> {
+    let aead = tcp_aead(cipher).unwrap();
+    let n = aead.key_len();
+    let mut header = [0u8; 16];
+    header[..8].copy_from_slice(&b.session_id.to_be_bytes());
+    header[8..].copy_from_slice(&b.packet_id.to_be_bytes());
+    let nonce = header[4..16].to_vec();
+    let body_key = session_subkey(body_psk, &b.session_id.to_be_bytes(), n);
+    let mut enc_header = header;
+    aes_ecb_encrypt_block(&keys[0], &mut enc_header);
+    let mut out = enc_header.to_vec();
+    for i in 0..keys.len().saturating_sub(1) {
+        let mut block = psk_hash(&keys[i + 1]);
+        for (x, y) in block.iter_mut().zip(header.iter()) {
+            *x ^= y;
+        }
+        aes_ecb_encrypt_block(&keys[i], &mut block);
+        out.extend_from_slice(&block);
+    }
+    out.extend(aead.seal(&body_key, &nonce, &[], &udp_body_bytes(b)));
+    out
+}
+
 pub fn udp_packet_chacha(cipher: &str, key: &[u8], nonce24: &[u8; 24], b: &UdpBody) -> Vec<u8> {
     let aead = if cipher.contains("chacha8") { Aead::XChaCha8Poly1305 } else { Aead::XChaCha20Poly1305 };
     let mut pt = b.session_id.to_be_bytes().to_vec();
